@@ -191,15 +191,25 @@ impl Context
     ///
     /// * `id` - The next reference ID to cache.
     /// * `directory_path` - The directory containing the lock file.
+    ///
+    /// # Returns
+    ///
+    /// `false` if the lock file should have been written but could not be, `true` otherwise.
     #[allow(dead_code)]
-    pub fn cache_next_reference_id(&self, id: u32, directory_path: &str)
+    pub fn cache_next_reference_id(&self, id: u32, directory_path: &str) -> bool
     {
         if !self.config.use_cache
         {
-            return;
+            return true;
         }
 
         let cache_path = std::path::Path::new(directory_path).join(Context::CACHE_FILENAME);
+
+        /* Write to a sibling file and rename it into place so that the previous lock file stays
+         * intact if the write fails or the process dies part-way through.
+         */
+        let temp_cache_path = std::path::Path::new(directory_path)
+            .join(format!("{}.tmp", Context::CACHE_FILENAME));
 
         let cache = Cache {
             next_reference_id: id,
@@ -211,20 +221,34 @@ impl Context
             {
                 yaml.insert_str(0, Context::CACHE_EDIT_WARNING);
 
-                if let Err(e) = std::fs::write(cache_path, yaml)
+                let write_result = std::fs::write(&temp_cache_path, yaml)
+                    .and_then(|_| std::fs::rename(&temp_cache_path, cache_path));
+
+                if let Err(e) = write_result
                 {
                     log::warn!(
                         "[ref: 33] Failed to write lock file {}: {}",
                         Context::CACHE_FILENAME,
                         e
                     );
+
+                    let _ = std::fs::remove_file(&temp_cache_path);
+
+                    return false;
                 }
+
+                true
             },
-            Err(e) => log::warn!(
-                "[ref: 34] Failed to serialize lock file {}: {}",
-                Context::CACHE_FILENAME,
-                e
-            ),
+            Err(e) =>
+            {
+                log::warn!(
+                    "[ref: 34] Failed to serialize lock file {}: {}",
+                    Context::CACHE_FILENAME,
+                    e
+                );
+
+                false
+            },
         }
     }
 }
